@@ -255,8 +255,9 @@ def check(ctx, fb, cfg, words, r_word, r_order, r_cas, in_scope=None):
                            'the owner that drops the last reference does not acquire the other owners\' writes '
                            '(no acquire fence and the decrement is not acq_rel)')
         # ---- CAS kind
+        if s['op'].startswith('cas'):
+            ctx.instance(r_cas, key, dict(site=site, where=where, kind=s['op'], in_loop=s['in_loop']))
         if s['op'] == 'cas_weak':
-            ctx.instance(r_cas, key, dict(site=site, where=where, in_loop=s['in_loop']))
             if not s['in_loop']:
                 ctx.report(r_cas, 'R-CASKIND ' + key, where,
                            'weak compare-exchange outside a retry loop: a spurious failure is interpreted as a '
